@@ -1,5 +1,6 @@
 import SvModel.Core.Pp
 import SvModel.Lemmas.Walker
+import SvModel.Lemmas.SplitText
 /-!
 # C05 — macro usages: misuse is reported by name, omitted arguments take their default (decision logic)
 
@@ -214,5 +215,125 @@ theorem C05_expansion_rescanned (C : Cfg) (n : Nat) (inp : Input) (s path : Byte
               injection h with h; injection h with h; injection h with h1 h2; injection h2 with h2 h3
               subst h1 h3
               exact ⟨_, out, hpp, rfl⟩
+
+
+/-! ### what text is handed to the re-scan: the substituted body, piece by piece -/
+
+/-- the actual arguments of a usage as `resolve_text_macro_usage` reads them -/
+def usageActuals (K : PpKinds) (inp : Input) (x : Tree) : List (Option Bytes) :=
+  match (x.kids.drop 2).find? (fun k => k.baseKind == K.listOfActualArguments) with
+  | some la => (listItemsOpt K K.actualArgument la.kids).map (fun o =>
+      match o with
+      | some a => (match a.kids.head? with | some (.leaf o l _) => some (argText (bytesOf inp o l)) | _ => some [])
+      | none => none)
+  | none => []
+
+/-- the parenthesised text after the name of a usage -/
+def usageArgsStr (inp : Input) (x : Tree) : Bytes := (x.kids.drop 2).foldl (fun acc k => acc ++ getStrAll inp k) []
+
+/-- the value bound to a formal name (last binding wins) -/
+def argLookup (argMap : List (Bytes × Bytes)) (k : Bytes) : Option Bytes :=
+  match (argMap.reverse.find? (fun kv => kv.1 == k)) with
+  | some kv => some kv.2
+  | none => none
+
+/-- the text `resolve_text_macro_usage` hands to `preprocess_str`: every piece of `split_text(body)` through `substPiece`, then — for a macro
+    without formals — the parenthesised text that followed the name -/
+def substBody (dt : DefineText) (argMap : List (Bytes × Bytes)) (paren : Option Bytes) : Bytes :=
+  ((splitText dt.text).map (substPiece (argLookup argMap) (dt.text.length + 1))).flatten ++ paren.getD []
+
+/-- **the expansion of a usage, in full**: when `resolve_text_macro_usage` returns a text, the macro is in the table with a body, the formals were
+    bound to the actuals (`bindArgs`, C05_bind_ok), and the text is the output of `preprocess_str` on `substBody` — the body cut into pieces by
+    `split_text`, each piece that equals a formal replaced by its value, string literals verbatim, the other pieces through the replace chain —
+    with the table in force at the point of use; the origin is the one recorded at definition time. -/
+theorem C05_expansion_body (C : Cfg) (n : Nat) (inp : Input) (s path : Bytes) (x : Tree) (d : Defines) (ii sc : Bool) (rd id : Nat)
+    (t : Bytes) (org : Option (Bytes × Range)) (nd : Defines)
+    (h : resolveUsage C (n + 1) inp s path x d ii sc rd id = .ok (some (t, org, nd))) :
+    ∃ def_ dt argMap out, d.get? (usageName C.K inp x) = some (some def_) ∧ def_.text = some dt ∧
+      bindArgs def_.args (usageActuals C.K inp x) = .ok argMap ∧
+      preprocessStr C n (substBody dt argMap (if def_.args.isEmpty then some (usageArgsStr inp x) else none)) path d ii sc rd id = .ok (out, nd) ∧
+      t = out.text ∧ org = dt.origin := by
+  simp only [resolveUsage] at h
+  split at h
+  · cases h
+  · split at h
+    · cases h
+    · cases h
+    · rename_i def_ hget
+      split at h
+      · cases h
+      · split at h
+        · cases h
+        · rename_i argMap hbind
+          split at h
+          · cases h
+          · rename_i dt hdt
+            split at h
+            · cases h
+            · rename_i out nd' hpp
+              injection h with h; injection h with h; injection h with h1 h2; injection h2 with h2 h3
+              subst h1 h3
+              refine ⟨def_, dt, argMap, out, hget, hdt, hbind, ?_, rfl, h2.symm⟩
+              rw [← hpp]
+              congr 1
+              unfold substBody
+              have hf := foldl_subst (argLookup argMap) (dt.text.length + 1) (splitText dt.text) []
+              simp only [List.nil_append] at hf
+              unfold argLookup at hf ⊢
+              rw [← hf]
+              unfold usageArgsStr
+              split
+              · rfl
+              · simp only [Option.getD_none, List.append_nil]; rfl
+
+/-- a body without formals in it, without back-quote, backslash and `//`, that does not start with white space, is handed to the re-scan unchanged -/
+theorem C05_plain_body_unchanged (dt : DefineText) (argMap : List (Bytes × Bytes))
+    (hn : NoSlashSlash dt.text) (hh : ∀ c, dt.text.head? = some c → (c != 92 && !isAsciiWhitespace c) = true)
+    (h96 : 96 ∉ dt.text) (h92 : 92 ∉ dt.text) (hl : ∀ p ∈ splitText dt.text, argLookup argMap p = none) :
+    substBody dt argMap none = dt.text := by
+  unfold substBody
+  have hmem : ∀ p ∈ splitText dt.text, ∀ b ∈ p, b ∈ dt.text := by
+    intro p hp b hb
+    rw [← splitText_flatten dt.text hn hh]
+    exact List.mem_flatten.mpr ⟨p, hp, hb⟩
+  have : (splitText dt.text).map (substPiece (argLookup argMap) (dt.text.length + 1)) = splitText dt.text := by
+    conv => rhs; rw [← List.map_id (splitText dt.text)]
+    apply List.map_congr_left
+    intro p hp
+    exact substPiece_plain _ _ p (hl p hp) (fun h => h96 (hmem p hp 96 h)) (fun h => h92 (hmem p hp 92 h))
+  rw [this, splitText_flatten dt.text hn hh]; simp
+
+/-- non-vacuity: `a+b` with formal `a` bound to `1` becomes `1+b` -/
+example : substBody { text := [97, 43, 98], origin := none } [([97], [49])] none = [49, 43, 98] := by decide
+
+/-- non-vacuity of `splitText_string_piece`: `x="s``y";` keeps the literal `"s``y"` as one piece -/
+example : [34, 115, 96, 96, 121, 34] ∈ splitText [120, 61, 34, 115, 96, 96, 121, 34, 59] := by decide
+
+
+/-- `split_text` loses nothing (all texts without `//` that do not start with white space / a backslash) -/
+theorem C05_split_text_lossless (t : List Nat) (hn : NoSlashSlash t)
+    (hh : ∀ c, t.head? = some c → (c != 92 && !isAsciiWhitespace c) = true) : (splitText t).flatten = t :=
+  splitText_flatten t hn hh
+
+/-- **ordinary string literals are left untouched**: a string literal of the macro text is a piece of its own … -/
+theorem C05_string_literal_is_a_piece (pre body post : List Nat)
+    (hp0 : ∀ c, pre.head? = some c → (c != 92 && !isAsciiWhitespace c) = true) (hpne : pre ≠ [])
+    (hp34 : 34 ∉ pre) (hp47 : 47 ∉ pre) (hplast : pre.getLast? ≠ some 96)
+    (hb34 : 34 ∉ body) (hblast : body.getLast? ≠ some 96) :
+    ([34] ++ body ++ [34]) ∈ splitText (pre ++ ([34] ++ body ++ [34]) ++ post) :=
+  splitText_string_piece pre body post hp0 hpne hp34 hp47 hplast hb34 hblast
+
+/-- … and a piece that starts with a quote (and is not a formal name) is copied verbatim: no `` removal, no `" conversion, no continuation folding -/
+theorem C05_piece_string_verbatim (lookup : Bytes → Option Bytes) (n : Nat) (chunk : Bytes) (hl : lookup chunk = none)
+    (hq : chunk.head? = some 34) : substPiece lookup n chunk = chunk := substPiece_string lookup n chunk hl hq
+
+/-- a piece that equals a formal name is replaced by the value bound to it -/
+theorem C05_piece_formal (lookup : Bytes → Option Bytes) (n : Nat) (chunk v : Bytes) (hl : lookup chunk = some v) :
+    substPiece lookup n chunk = v := substPiece_formal lookup n chunk v hl
+
+/-- a piece without back-quote and backslash that is not a formal name is copied unchanged (text and white space around a usage are preserved) -/
+theorem C05_piece_plain (lookup : Bytes → Option Bytes) (n : Nat) (chunk : Bytes)
+    (hl : lookup chunk = none) (h96 : 96 ∉ chunk) (h92 : 92 ∉ chunk) : substPiece lookup n chunk = chunk :=
+  substPiece_plain lookup n chunk hl h96 h92
 
 end Sv
